@@ -119,6 +119,7 @@ Proof.
   unfold authorize_par.
   destruct (key_of s uri) as [k|]; [|apply prov_refl].
   destruct (par (st s) k) as [pr|]; [|apply prov_refl].
+  destruct (before _ _); [apply prov_eq_tables; reflexivity|].
   destruct (negb (Nat.eqb cp (r_client pr))); [apply prov_eq_tables; reflexivity|].
   match goal with |- context [authorize_core cfg ?s1 ?cl ?a'] =>
     pose proof (prov_authorize_core cfg s1 cl a') as P; set (res := authorize_core cfg s1 cl a') in * end.
@@ -142,6 +143,7 @@ Proof.
   destruct (clients s _) as [cl|]; [|exact R].
   destruct (negb (scopes_ok cfg cl (az_scopes a))); [exact R|].
   destruct (negb (aud_ok cfg (cl_aud cl) (az_aud a))); [exact R|].
+  destruct (negb (Nat.eqb _ c)); [exact R|].
   destruct (fresh_rid s) as [rid s1] eqn:E1.
   destruct (fresh_rid_spec _ _ _ E1) as [_ [_ [Hst1 [Hnr1 [Hnk1 [_ Hl1]]]]]].
   destruct (mint s1 KPar rid) as [k s2] eqn:E2.
@@ -443,7 +445,7 @@ Proof.
   - unfold authorize_par.
     destruct (key_of s uri) as [k|]; [|gr].
     destruct (par (st s) k) as [pr|]; [|gr].
-    match goal with |- context [if ?c then _ else _] => destruct c; [gr|] end.
+    repeat match goal with |- context [if ?c then fail _ _ else _] => destruct c; [gr|] end.
     eapply grows_trans; [apply grows_set_store|apply grows_authorize_core].
   - match goal with |- context [device_authorize cfg s ?x1 ?x2 ?x3 ?x4] => destruct (device_authorize_tables cfg s x1 x2 x3 x4) as [_ [_ [_ [_ [Hr [Hk [Hl _]]]]]]] end. repeat split; assumption.
   - match goal with |- context [decide cfg s ?x1 ?x2 ?x3 ?x4 ?x5] => destruct (decide_tables cfg s x1 x2 x3 x4 x5) as [_ [_ [_ [_ [Hr [Hk [Hl _]]]]]]] end. now apply grows_eq.
@@ -507,7 +509,7 @@ Proof. unfold invalidate_code. destruct (codes x k) as [[? ?]|]; reflexivity. Qe
 
 Definition dev_keeps (s s' : state) : Prop :=
   forall k b r, device (st s') k = Some (b, r) ->
-    (exists b0 r0, device (st s) k = Some (b0, r0) /\ r_id r0 = r_id r) \/ r_id r = next_rid s.
+    (exists b0 r0, device (st s) k = Some (b0, r0) /\ r_id r0 = r_id r) \/ (r_id r = next_rid s /\ next_key s <= k).
 
 Lemma dev_keeps_eq s s' : device (st s') = device (st s) -> dev_keeps s s'.
 Proof. intros E k b r H. rewrite E in H. left. eauto. Qed.
@@ -559,11 +561,13 @@ Proof.
   - apply dev_keeps_eq. unfold authorize_par.
     destruct (key_of s uri) as [k|]; [|reflexivity].
     destruct (par (st s) k) as [pr|]; [|reflexivity].
-    match goal with |- context [if ?c then _ else _] => destruct c; [reflexivity|] end.
+    repeat match goal with |- context [if ?c then fail _ _ else _] => destruct c; [reflexivity|] end.
     rewrite authorize_core_device. reflexivity.
   - match goal with |- context [device_authorize cfg s ?x1 ?x2 ?x3 ?x4] =>
-      destruct (device_authorize_tables cfg s x1 x2 x3 x4) as [_ [_ [_ [_ [_ [_ [_ [Hd _]]]]]]]] end.
-    intros k b r H. destruct (Hd k b r H); [left; eauto|right; assumption].
+      destruct (device_authorize_tables cfg s x1 x2 x3 x4) as [_ [_ [_ [_ [_ [_ [_ [Hd Hold]]]]]]]] end.
+    intros k b r H. destruct (Nat.lt_ge_cases k (next_key s)) as [Hlt|Hge].
+    + left. rewrite (Hold k Hlt) in H. eauto.
+    + destruct (Hd k b r H); [left; eauto|right; split; assumption].
   - match goal with |- context [decide cfg s ?x1 ?x2 ?x3 ?x4 ?x5] =>
       destruct (decide_tables cfg s x1 x2 x3 x4 x5) as [_ [_ [_ [_ [_ [_ [_ [Hd _]]]]]]]] end.
     intros k b r H. left. exact (Hd k b r H).
@@ -589,7 +593,7 @@ Proof.
   - intros k r H Heq. destruct (PA _ _ H) as [H0|H0]; [eapply Da; eauto|subst; auto].
   - intros k r H Heq. destruct (PR _ _ H) as [H0|H0]; [eapply Dr; eauto|subst; auto].
   - intros k r H Heq. destruct (PC _ _ H) as [H0|H0]; [eapply Dc; eauto|subst; auto].
-  - intros k b r H Heq. destruct (DK _ _ _ H) as [[b0 [r0 [H0 Hr0]]]|H0]; [eapply Dd; [exact H0|congruence]|lia].
+  - intros k b r H Heq. destruct (DK _ _ _ H) as [[b0 [r0 [H0 Hr0]]]|[H0 _]]; [eapply Dd; [exact H0|congruence]|lia].
 Qed.
 
 Theorem dead_run cfg h : forall s X, dead (st s) X -> X < next_rid s -> dead (st (run cfg s h)) X.
